@@ -24,6 +24,9 @@ tie:   2-4 real tasks enter/leave guarded sections through Cache.lock, @cache.lo
        all_keys_lower) installed with setup(middlewares=...) must not change the protocol; locked async generators are consumed by
        draining, aclose(), aclosing, or are dropped, with consumer-side pauses (release at the yield point); ttls are written as
        timedelta (with fractions of a second) / int / strings and the backend must receive the denoted duration.
+       Exits: bodies end normally, by cancellation, with an application exception, with an exception of EVERY class that
+       cashews/exceptions.py defines, or with other (Base)Exception kinds - also inside @cache(ttl, lock=True) functions;
+       whatever a section ends with, its own identifier must have been unlocked.
 """
 from __future__ import annotations
 
@@ -248,6 +251,8 @@ class Analysis:
                     self.tags.add("lock_command_at_the_instant_of_a_sweep_after_it")
             if kind == "sec_start":
                 started.add(e["sec"])
+                if e["via"] == "clock":
+                    self.tags.add("cache_lock_true_section")
             elif kind == "outcome":
                 ended.add(e["sec"])
             if kind == "set_lock":
@@ -373,7 +378,13 @@ class Analysis:
                         if cur is not None:
                             self.tags.add("late_unlock_leaves_next_holder_alone")
                     a["unlocked"] = True
-                    self.tags.add({"n": "exit_normal", "e": "exit_exception", "c": "exit_cancelled", "g": "exit_generator_closed_by_consumer"}[how])
+                    if how.startswith("x:"):
+                        self.tags.add("exit_exception")
+                        self.tags.add("exit_library_exception" if how[2:] in LIBRARY_ENDS() else "exit_other_exception_kind")
+                        self.tags.add("exit_" + how[2:])
+                    else:
+                        self.tags.add({"n": "exit_normal", "e": "exit_exception", "c": "exit_cancelled",
+                                       "g": "exit_generator_closed_by_consumer"}[how])
                     emit(f"leave {a['id']} {how}", "rT" if e["res"] else "rF")
                 else:
                     if isinstance(ident, str) and ident.startswith("alien-"):
@@ -647,6 +658,29 @@ WHOLE_FORMS = ["i", "s", "ss", "sn", "s4", "sU"]
 WINDOWS = [(0, None), (100, None), (256, None), (0, 50), (0, 84), (86, None), (0, 1000), (80, 90)]
 
 
+_LIB: list = []
+
+
+def LIBRARY_ENDS() -> list:
+    """names of the exception classes cashews/exceptions.py (of the tree under test) defines"""
+    if not _LIB:
+        _LIB.extend(lockrun.library_exceptions())
+    return _LIB
+
+
+def gen_end(rng) -> str:
+    """how a guarded body ends: normally, with an application exception, with an exception of one of the library's own
+    classes (the body talks to a cache and lets the error through), or with another kind of (Base)Exception"""
+    r = rng.random()
+    if r < 0.72:
+        return "n"
+    if r < 0.80:
+        return "e"
+    if r < 0.94:
+        return "x:" + rng.choice(LIBRARY_ENDS())
+    return "x:" + rng.choice(sorted(lockrun.BUILTIN_ENDS))
+
+
 def gen_form(rng, ttl):
     """how the application writes the ttl: float seconds (what the harness always did), a timedelta (any number of ticks,
     fractions of a second included), or - whole seconds only - an int / one of the string notations"""
@@ -684,7 +718,7 @@ def gen_section(rng, nkeys, depth, outer, gated):
     if wait and any(k == key and t is None for k, t in outer):
         wait = False
     sec = {"via": rng.choice(["cm", "cm", "deco", "gen"]), "key": key, "ttl": ttl, "wait": wait,
-           "ci": rng.choice([0, 1]), "end": "e" if rng.random() < 0.2 else "n", "body": []}
+           "ci": rng.choice([0, 1]), "end": gen_end(rng), "body": []}
     nsteps = rng.randrange(0, 4)
     for _ in range(nsteps):
         r = rng.random()
@@ -709,6 +743,18 @@ def gen_section(rng, nkeys, depth, outer, gated):
         if rng.random() < 0.4:
             sec["between"] = [["sleep", rng.choice([0, 1, 2, 4])] if not gated or rng.random() < 0.5 else ["point"]]
     return sec
+
+
+def to_cache_lock(sec: dict):
+    """the section becomes a call of a `@cache(ttl, lock=True)` function: always wait=True, check_interval 0, a ttl is
+    required, lock key space `lock:cl:K<k>`"""
+    sec["via"] = "clock"
+    sec["wait"] = True
+    sec["ci"] = 0
+    if sec["ttl"] is None:
+        sec["ttl"] = 8
+    for f in ("consume", "between", "be"):
+        sec.pop(f, None)
 
 
 def gen_task(rng, nkeys, gated):
@@ -768,6 +814,11 @@ def gen_case(rng, i) -> dict:
     case = {"mode": "gated" if gated else "timed", "cfg": CFGS[(i // 2) % len(CFGS)],
             "tasks": [gen_task(rng, nkeys, gated) for _ in range(ntasks)]}
     break_cycles(case)
+    if lockrun.CONFIGS[case["cfg"]]["facade"]:
+        for path in list(_step_lists(case)):
+            for st in _get_list(case, path):
+                if st[0] == "lock" and rng.random() < 0.12:
+                    to_cache_lock(st[1])
     if lockrun.CONFIGS[case["cfg"]]["facade"] and rng.random() < 0.3:
         case["mw"] = gen_mw(rng)
     if gated:
@@ -1060,9 +1111,12 @@ EXHAUSTIVE = [
     ("generator_consumer_stops_early", {"cfg": "facade", "tasks": [[sec(0, 8, True, [["point"], ["point"]], via="gen",
                                                                         consume=["aclose", 1], form="td")],
                                                                    [sec(0, 8, True, [], ci=1)]]}),
+    ("body_raises_the_librarys_own_exception", {"cfg": "facade", "tasks": [
+        [sec(0, 16, True, [["point"]], end="x:CacheBackendInteractionError"), sec(0, 16, True, [], via="deco", end="x:LockedError")],
+        [sec(0, 16, True, [], ci=1, via="gen", end="x:NotConfiguredError")]]}),
     ("three_tasks_one_key", {"cfg": "raw", "tasks": [[sec(0, 4, True, [])], [sec(0, 4, True, [])], [sec(0, 4, False, [])]]}),
 ]
-NQUICK = 13      # the first NQUICK programs are enumerated in the quick tier as well
+NQUICK = 14      # the first NQUICK programs are enumerated in the quick tier as well
 
 
 def enumerate_all(case: dict, limit: int):
@@ -1489,6 +1543,7 @@ INTERESTING = {
     "contended_attempt_healthy_prefixed_owner_default_backend_absent_or_silent",
     "contended_attempt_prefixed_owner_silent_default_backend_healthy",
     "exit_generator_closed_by_consumer", "ttl_timedelta_with_fraction_of_a_second",
+    "exit_library_exception", "exit_other_exception_kind", "cache_lock_true_section",
     "contended_attempt_behind_memory_limit_excluding_the_token",
 }
 
